@@ -35,12 +35,12 @@ def yieldName : Pc → String
   | .exited _ => "done"
 
 /-- Run through the program points that have no yield hook (`visit`, end of `run_one`). -/
-def settle (n w : Nat) (quitAt : Option Nat) : Nat → State → Option State
+def settle (n w : Nat) (quitAt : List Nat) : Nat → State → Option State
   | 0, s => some s
   | fuel + 1, s =>
     match s.pc w with
     | .hold _ =>
-      let a := if quitAt == some s.visited.length then Act.visitQuit else Act.visitCont
+      let a := if quitAt.contains s.visited.length then Act.visitQuit else Act.visitCont
       (stepFn n s w a).bind (settle n w quitAt fuel)
     | .running [] => (stepFn n s w .go).bind (settle n w quitAt fuel)
     | _ => some s
@@ -61,7 +61,7 @@ def stealRound (n w : Nat) (obs : Option (Nat × Nat)) : Nat → State → Optio
     | _ => none
 
 /-- One coarse step of worker `w`. -/
-def coarse (n w : Nat) (obs : Option (Nat × Nat)) (quitAt : Option Nat) (s : State) : Option State :=
+def coarse (n w : Nat) (obs : Option (Nat × Nat)) (quitAt : List Nat) (s : State) : Option State :=
   match s.pc w with
   | .steal _ _ => (stealRound n w obs (n + 2) s).bind (settle n w quitAt 4)
   | .exited _ => none
@@ -78,7 +78,7 @@ def parseStep : Sx → Option (Nat × Option (Nat × Nat))
   | .list [w, v, k] => do pure ((← w.nat?), some ((← v.nat?), (← k.nat?)))
   | _ => none
 
-def runCoarse (n : Nat) (quitAt : Option Nat) :
+def runCoarse (n : Nat) (quitAt : List Nat) :
     List (Nat × Option (Nat × Nat)) → Nat → State → List String → (List String × State × Option Nat)
   | [], _, s, acc => (acc.reverse, s, none)
   | (w, obs) :: rest, i, s, acc =>
@@ -91,14 +91,15 @@ def runCoarse (n : Nat) (quitAt : Option Nat) :
 
 def handle (cmd : String) (args : List Sx) : String :=
   match cmd, args with
-  | "c07.run", [.list [.atom "threads", n], .list [.atom "quit", q], .list (.atom "roots" :: rs),
+  | "c07.run", [.list [.atom "threads", n], .list (.atom "quit" :: qs), .list (.atom "roots" :: rs),
                .list (.atom "sched" :: ss)] =>
     match n.nat?, rs.mapM parseTree, ss.mapM parseStep with
     | some n, some roots, some sched =>
-      let quitAt : Option (Option Nat) :=
-        match q with
-        | .atom "-" => some none
-        | x => (x.nat?).map some
+      -- visit indices at which the visitor answers Quit (`-` = never)
+      let quitAt : Option (List Nat) :=
+        match qs with
+        | [.atom "-"] => some []
+        | xs => xs.mapM Sx.nat?
       match quitAt with
       | none => "bad-op"
       | some quitAt =>
